@@ -838,6 +838,8 @@ def run(ctx, tier):
     results += remap_always(ctx)
     results += flags_flow(ctx)
     results += results_option_free(ctx)
+    import c15
+    results += c15.open_refusals(ctx, rule='C16.open-refusals')
     import c05
     # a run freed or sized with the wrong length loses pages only where values overflow a page, i.e. depending on the page size (and strict mode then rejects what non-strict accepts)
     results += c05.run_length(ctx, rule='C16.run-length')
@@ -850,7 +852,7 @@ def run(ctx, tier):
     return dict(
         results=results, stats=dict(ctx.stats),
         explanation=(
-            'Equality of results across the configuration product is a run-time comparison and is NOT decided. Decided: (align-guard) the crate views bytes at id*pagesize as Page '
+            'Equality of results across the configuration product is a run-time comparison and is (results-option-free) no crate error outside open / header selection / strict check is control-dependent on the page size or a flag; (open-refusals) refusal sites of open do not grow; (run-length) page runs are overflow + 1. NOT decided. Decided: (align-guard) the crate views bytes at id*pagesize as Page '
             '(counted), therefore every public store of a caller-supplied page size is dominated by a divisibility test against the alignment of Page whose failing edge does not return '
             '("every value the builder accepts must work or be refused cleanly"); (O6) the strict-mode check runs after all data writes, growth and remap and before the header write, '
             'only under the strict_mode flag; (grow) the growth decision compares the file length with num_pages*pagesize after the final high-water mark is known, the new size derives '
